@@ -4,6 +4,18 @@ from checks import exprun, runner, saferun
 
 LEVEL = "proof"
 CONST_DIMS = [0, 1, 3, 8, 17, 33, 65, 130]
+# (type, register, kernel, element bit patterns): fallback min over +0 / -0 / tiny values - f64::min left the sign of the zero
+# unspecified and xconst::<8> returned -0 where xany returned +0 (fixed by bf17999)
+REGRESSIONS = [
+    ("f64", "Fallback", "generic_min_horizontal",
+     [0x0000000000000000, 0x0010000000000000, 0x8000000000000000, 0x3ca0000000000000,
+      0x8000000000000000, 0x000fffffffffffff, 0x3ca0000000000000, 0x8000000000000000]),
+    ("f32", "Fallback", "generic_min_horizontal",
+     [0x00000000, 0x00800000, 0x80000000, 0x33800000, 0x80000000, 0x007fffff, 0x33800000, 0x80000000]),
+    ("f64", "Fallback", "generic_max_horizontal",
+     [0x8000000000000000, 0x8010000000000000, 0x0000000000000000, 0xbca0000000000000,
+      0x0000000000000000, 0x800fffffffffffff, 0xbca0000000000000, 0x0000000000000000]),
+]
 
 
 def run(ctx):
@@ -18,6 +30,17 @@ def run(ctx):
         rows = exprun.select(facts, config)
         cases_a, meta = exprun.gen_cases(ctx, rows, lambda L: CONST_DIMS, ("random", "boundary", "special", "specialnan") if thorough else ("random", "special", "specialnan"),
                                          places=("R",), forms=("a",), seed_tag=12)
+        # minimised failing inputs of fixed findings run first, on every run (known_findings.json: C12 bf17999)
+        for ty, reg, op, bits in REGRESSIONS:
+            for idx, e in rows:
+                if e["ty"] == ty and e["reg"] == reg and e["op"] == op:
+                    n = len(bits)
+                    kind = exprun.KIND[e["macro"]]
+                    a = list(bits)
+                    b = list(bits[::-1]) if kind in ("Dist", "Vert") else []
+                    r = [0] * n if kind in ("Vert", "Value") else []
+                    cases_a.insert(0, exprun.case_line(idx, e, "a", None, False, "R", bits[0], a, b, r))
+                    meta.insert(0, (idx, e, "a", n, "regression", "R"))
         cases_c = []
         for c, m in zip(cases_a, meta):
             idx, e, form, n, cls, place = m
@@ -48,6 +71,11 @@ def run(ctx):
                               "%s::<%d> and %s disagree on the same data (%s build)" % (e["xconst"], n, e["xany"], config),
                               {"kind": "input", "case": "exp " + cc[:4000], "case_any": "exp " + ca[:4000], "build": config,
                                "observed_const": (xc or "<crashed>")[:1500], "observed_any": (xa or "<crashed>")[:1500]})
+            elif config == "nightly" and e["ty"][0] == "f" and cls in ("special", "specialnan") and \
+                    e["op"] in exprun.FLOAT_REDUCTIONS:
+                # nightly = FastMath: algebraic float operations on overflowing / infinite / NaN data are not specified by the
+                # model (nor bound by the property's "default math"); the two forms were compared above, the model is not consulted
+                pass
             elif not exprun.lines_agree(xc, yc, e, config, n):
                 ctx.broke("correspondence", "C12: %s::<%d> vs model (%s)" % (e["xconst"], n, config),
                           {"case": cc[:2000], "impl": (xc or "")[:800], "model": (yc or "")[:800]})
